@@ -51,6 +51,51 @@ CHECKS = {
          "Decoder: every string over {& # x X ; 0 1 9 a F g space}<=7 (8 thorough) and the overflow family: (value, consumed) equals the specification, 1<=consumed<=|s|. Matcher: every scheme x per-byte encoding combination (7 forms) x 8 leading-junk prefixes x NUL/LF (raw or reference) at every piece boundary must satisfy the URL predicate, and IsXSS(<a ATTR=VALUE>) for every URL attribute x 3 quotings on the <=2/<=3 deviation subset.",
          "Encodings where an unterminated reference swallows the next literal digit are excluded. Deviation bound reported in the evidence.",
          "4 C19"),
+ "C03": ("model_checking",
+         "exhaustive enumeration of a finite calibrated attack grammar (complete product of productions x separator choices x case assignments) on the public API",
+         "Every member of the committed grammar (5220 (family, payload, prefix, tail) productions over 5 attack families, 14 context prefixes, 7 tails; each expanded by 9 separators uniformly and one position at a time, lower/UPPER/alternating case and every single-letter flip: about 590 k strings) is run through IsSQLi and must be reported. The production list was calibrated once on the repaired pinned tree (a production is in the grammar only if every variant was detected) and is fixed in c03_grammar.json.",
+         "The guarantee is exactly the enumerated grammar; the check never re-calibrates at run time.",
+         "4 C03"),
+ "C06": ("model_checking",
+         "reference-model trace conformance: independent executable model (refsql) vs implementation, compared field by field on every state of a bounded-exhaustive trie search in all six parsing modes",
+         "For every string over the SQL byte alphabet (<=3; 30-symbol core to 4/5), the fragment alphabet (<=3/<=4), the token-class alphabet (<=3/<=4; 16-class core to 5/6-7 tokens, which reaches the 5-token special cases and the look-ahead token) and every fixture cut, in each of the six modes: scan steps with offsets and all token fields, folded window, statistics, fingerprint, blacklist bit and verdict of the model are compared with the implementation; plus the public cascade.",
+         "The model takes the project's keyword table as data and mirrors the port-level behaviours listed in DESIGN.md section 6. Conformance beyond the enumerated levels is not claimed.",
+         "4 C06"),
+ "C08": ("model_checking",
+         "bounded-exhaustive trie search with invariants on the public result, cross-checked against per-context evaluations on fresh states",
+         "Every string over the SQL byte (<=4), fragment (<=3/<=4), token-class (<=4/<=5, core to 6/7) alphabets and every fixture cut: false comes with the empty string; a returned fingerprint has 1-5 class characters, the comment class only last, is a blacklist member by the real look-up, and equals the fingerprint of the first firing reachable context evaluated on a fresh state.",
+         "Per-context results come from the accessor (sqliFingerprint + checkFingerprint on a fresh state).",
+         "4 C08"),
+ "C10": ("model_checking",
+         "bounded-exhaustive trie search x deviation-bounded case re-assignments (all 2^k for k<=8 free letters, else <=2 flips), differential on the real code",
+         "Every base string over 39 SQL bytes (<=5), fragments (<=3/<=4), token classes (<=3/<=4), the lower-case attack grammar and fixture prefixes: all case re-assignments of the non-exempt letters (complete 2^k up to 8 letters, otherwise lower/UPPER and all single and double flips) must leave verdict and fingerprint unchanged. Exempt positions are locked by a syntactic over-approximation.",
+         "Over-locking costs coverage, never a false alarm. Deviations >2 flips on bases with >8 free letters are not enumerated.",
+         "4 C10"),
+ "C12": ("model_checking",
+         "bounded-exhaustive trie search; cascade recomputed from fresh-state contexts, virtual-quote differential, and exhaustive 2-step (thorough 3-step) mode histories on one reused scanner object",
+         "Every string over the SQL byte (<=3/<=4), fragment (<=3/<=4), token-class (<=3/<=4) alphabets and fixture cuts: (A) IsSQLi equals the first firing element of the documented cascade computed from per-context results on fresh states; (B) reading s inside a quote equals reading quote+s as-is (fingerprint, token classes; verdict unless sos/s&s) for both quotes and dialects; (C) every ordered pair (triple in thorough) of the six modes on ONE scanner object reproduces the fresh-state result including counters.",
+         "The re-parse gate is read from the ANSI pass' own counters.",
+         "4 C12"),
+ "C14": ("model_checking",
+         "model checking of the token-class abstraction (all {n,1} sequences vs the real blacklist) + exhaustive conformance of the abstraction to the code (all short identifiers, all word/number sequences to length 7/8, all shape fillings)",
+         "All 62 class sequences over {bareword, number} of length 1-5 are absent from the current blacklist (real look-up); every identifier of length <=3 in three case forms that is not a key or key component lexes to one bareword, digit runs to one number; every sequence of up to 7 (8 thorough) items over a 10-item set is not SQLi and folds to its first five classes; every filling of 32 calibrated benign shapes is not SQLi.",
+         "Admissibility is computed from the current table. The shape list was calibrated once on the repaired pinned tree.",
+         "4 C14"),
+ "C16": ("model_checking",
+         "bounded-exhaustive trie search with per-scan-step invariants on the real token records in all six modes",
+         "Every string over the SQL byte alphabet (<=4; core to 5-6 thorough), fragments (<=4), fixture cuts and 30-200 byte tokens of every class, in six modes: val = s[pos:pos+len], len<=31, before<=pos, pos+len<=after, after>before, no overlap, contiguous steps, scan ends at |s|, class in the documented alphabet, tokens<=|s|.",
+         "Token records come from the accessor looping tokenize() on a fresh state.",
+         "4 C16"),
+ "C18": ("model_checking",
+         "complete enumeration of literal bodies over the terminator/escape alphabet for every opening form, against an independent first-real-terminator oracle",
+         "25 opening forms x every body over {delimiter, backslash, a, other quote} up to length 10 (11 thorough) x 2 tails; all 223 q-quote delimiter bytes x bodies to length 5 (6) x 6 prefixes; 4 dollar tags x bodies to length 7 (8): content length, close mark and resume offset of the literal token must equal those given by a plain forward scanner written from the property statement.",
+         "The oracle is independent of the lexer (forward scan with explicit backslash parity).",
+         "4 C18"),
+ "C20": ("model_checking",
+         "complete explicit enumeration of the finite tables (every entry is a state) with the real look-up paths as transitions, plus baseline inclusion",
+         "Every entry of the SQL keyword/fingerprint table, black tags, attributes, events and the hex map is checked for well-formedness and for reachability through the real look-up code (upper and lower-case probe, blacklist test, tag/attribute predicates, lexer class of single-word keys); every entry of the pinned baseline snapshot must be present with the same classification. Finite, exhaustive in both tiers.",
+         "Baseline snapshot /verif/baseline/tables.json was dumped once from the pinned tree through the accessors.",
+         "4 C20"),
 }
 
 NOT_YET = {
